@@ -421,6 +421,26 @@ def reuse_shard(spec, res, rng):
             ok, r = apply(res, last, fn, A)
             if ok:
                 judge_value(res, last, (tA,), r, ((a,) for a in ga), lambda a: conc(a, w), "reuse", extra)
+        if rng.random() < 0.5:
+            # something computed from an operand (and a constant, or the full range) compared with that operand: the two
+            # are different values although they come from the same object
+            kc = rng.randrange(1, 1 << w)
+            K = V.mk((w, 0, kc, kc, False, False))
+            src, tsrc, gsrc = (A, tA, ga) if rng.random() < 0.7 else (V.mk((w, 1, 0, (1 << w) - 1, False, False)), (w, 1, 0, (1 << w) - 1, False, False), None)
+            if gsrc is None:
+                gsrc = sorted(G.gamma(tsrc)) if w <= 4 else G.sample_members(tsrc, rng)
+            dname = rng.choice(["add", "sub", "xor", "radd"])
+            dfn = {"add": lambda X: X + K, "sub": lambda X: X - K, "xor": lambda X: X ^ K, "radd": lambda X: K + X}[dname]
+            dconc = {"add": lambda a: (a + kc) & bvsem.mask(w), "sub": lambda a: (a - kc) & bvsem.mask(w), "xor": lambda a: a ^ kc, "radd": lambda a: (a + kc) & bvsem.mask(w)}[dname]
+            ok, D = apply(res, "derived-" + dname, dfn, src)
+            if ok and hasattr(D, "lower_bound"):
+                gd = [dconc(a) for a in gsrc]
+                cmpn = rng.choice(["eq", "ne", "ult", "sle"])
+                fn, cmpname = V.CMP[cmpn]
+                ok, r = apply(res, cmpn, fn, D, src)
+                if ok:
+                    judge_bool(res, cmpn, (V.tup(D), tsrc), r, itertools.product(gd, gsrc), cmpname, w)
+                    res.count("judged:derived-vs-operand")
         if V.tup(A) != tA or V.tup(B) != tB:
             res.count("operand_changed_in_place")
             res.violation({"kind": "si-op", "mon": "M-si", "op": "reuse", "what": "an operation changed its operand object in place", "operands": [list(tA), list(tB)], "observed": [list(V.tup(A)), list(V.tup(B))], "earlier_operations_on_the_same_objects": seq})
